@@ -562,7 +562,7 @@ theorem s6e_encode_form (g : GI) (hs : g.Sound) (h2 : 2 ≤ g.n) (hn : g.n ≤ 6
   rw [List.nil_append] at hrep
   refine ⟨_, hrep, ?_⟩
   unfold s6Encode
-  simp only [if_neg (by omega : ¬ g.n = 0), if_neg (by omega : ¬ g.n ≤ 1), encHeader_eq #[58] g.n hn,
+  simp only [if_neg (by omega : ¬ g.n = 0), if_neg (by omega : ¬ g.n ≤ 1), encHeaderS6_eq g.n hn,
     s6e_main_loop g hs _ (by omega : 1 ≤ g.n), bitLen_eq,
     s6e_degrees_get g (g.n - 2) (by omega), s6e_degrees_get g (g.n - 1) (by omega)]
   generalize (List.foldl (s6e_step (Formats.bitLen (g.n - 1))) (⟨#[58] ++ (Nn g.n).toArray, 0, 0⟩, 0) g.toG.edges).1 = w
